@@ -65,6 +65,18 @@ CHECKS = {
                      "independent implementations incl. the identical/shifted/subset laws.",
                 note="Trusted: oracles; no pairing demanded between parameters() and costs().",
                 ref="DESIGN.md §3 C17"),
+    "C18": dict(cat="exploration", tech="runtime monitors on the public swarm update methods: sequential personal-best model, clamp bound, exact bound-reset model, leader-archive invariants",
+                text="OMOPSO/SMPSO/PSOGA update_particle_best/update_velocity/update_position/update_global_best are driven with "
+                     "generated swarms far outside the box and observed inside full runs; each post-state is compared with a "
+                     "reference model computed from the pre-state.",
+                note="Trusted: reference models in c18.py; finite values only; leader invariants on separated vectors.",
+                ref="DESIGN.md §3 C18"),
+    "C19": dict(cat="exploration", tech="runtime monitor: reference-model checker of the surrogate wrapper after every request (counters, training set, retraining, call log)",
+                text="Request histories x predict-hook scripts x train_step x trained state are replayed against a recording "
+                     "SurrogateModelPredict subclass, the real SurrogateModelScikit with a stub regressor and SurrogateModelEval; "
+                     "every post-state is compared with an executable model.",
+                note="Trusted: the model in c19.py; single-threaded requests.",
+                ref="DESIGN.md §3 C19"),
 }
 
 NOT_BUILT = "check not built yet in this session (design in DESIGN.md §3); not claimed until its monitor exists"
